@@ -6,6 +6,7 @@
 package main
 
 import (
+	"runtime"
 	"bufio"
 	"encoding/json"
 	"fmt"
@@ -72,7 +73,11 @@ func list(m map[string]any, k string) []any {
 func safely(h handler, in map[string]any) (out string) {
 	defer func() {
 		if r := recover(); r != nil {
-			out = fmt.Sprintf("panic %v", r)
+			if _, isRuntime := r.(runtime.Error); isRuntime {
+				out = fmt.Sprintf("crash %v", r) // nil dereference, index out of range, ...: never deliberate
+			} else {
+				out = fmt.Sprintf("panic %v", r)
+			}
 		}
 	}()
 	return h(in)
